@@ -14,6 +14,13 @@ SPEC = {
                   ('.', 'harness/root/zz_verif_c06crm_test.go')],
         'model_module': 'Model.C06_Handshake', 'imports': ['From Wesh Require Import Gen.Handshake.'],
         'shard': 400, 'timeout': 900,
+    }, {
+        'name': 'outgoing', 'pkg': '.', 'test': 'TestVerifC06Outgoing',
+        'files': [('.', 'harness/root/zz_verif_meta_common_test.go'),
+                  ('.', 'harness/root/zz_verif_c06crm_test.go'),
+                  ('.', 'harness/root/zz_verif_c06out_test.go')],
+        'model_module': 'Model.C06_Handshake', 'imports': ['From Wesh Require Import Gen.Handshake.'],
+        'shard': 400, 'timeout': 900, 'search_n': 20,
     }],
     'rule': 'per round (fresh account keys): honest run, wrong target, and an attack catalogue run against the real responder and the '
             'real requester over in-memory pipes: each of the 12 low-order / non-canonical X25519 encodings as ephemeral key on either '
@@ -28,7 +35,8 @@ SPEC = {
     'trusted_base': [
         'Coq 8.16.1 kernel; vm_compute for evaluating the model on cases',
         'no axioms',
-        'translator gen/handshake.go (validation of the peer ephemeral key present in receivePeerEphemeralPubKey)',
+        'translator gen/handshake.go (validation of the peer ephemeral key present in receivePeerEphemeralPubKey; order and guards of the steps of SendContactRequest and handleIncomingRequest)',
+        'harness/root/zz_verif_c06out_test.go (stub of the ipfs API handing out an in-memory pipe as the stream to the peer)',
         'harness/root/zz_verif_c06crm_test.go (hand-assembled contactRequestsManager; network.Stream stub over net.Pipe)',
         'harness/handshake/zz_verif_c06_test.go (scripted attacker with real keys; each attack is mapped by hand to the symbolic '
         'hello point and frame the model evaluates)',
